@@ -1,6 +1,8 @@
 package hamt
 
 import (
+	"unicode/utf8"
+
 	"github.com/ipfs/go-unixfsnode/internal/verifrt"
 	dagpb "github.com/ipld/go-codec-dagpb"
 )
@@ -77,5 +79,38 @@ func VerifTransformName() {
 	s, _ := dagpb.Type.String.FromString(name)
 	out := stringTransformer{maxPadLen: pad}.transformNameNode(s)
 	verifrt.Assert(out != nil && strEqSpec(out.String(), name[pad:]), "transform=strip-prefix")
+	verifrt.Reach("end")
+}
+
+// VerifEngineRunes (engine self-check, not a property of the library): the engine's
+// built-in string<->[]rune conversions and range-over-string agree with the real
+// unicode/utf8 code (interpreted instruction by instruction) on every byte string of
+// the bound.
+func VerifEngineRunes() {
+	n := verifrt.Param("len", 3)
+	s := verifrt.String(n)
+	rs := []rune(s)
+	var want []rune
+	for i := 0; i < len(s); {
+		r, sz := utf8.DecodeRuneInString(s[i:])
+		want = append(want, r)
+		i += sz
+	}
+	verifrt.Assert(len(rs) == len(want), "engine:rune-count")
+	for i := range want {
+		if i < len(rs) {
+			verifrt.Assert(rs[i] == want[i], "engine:rune-values")
+		}
+	}
+	k := 0
+	for _, r := range s {
+		verifrt.Assert(k < len(want) && r == want[k], "engine:range-runes")
+		k++
+	}
+	var enc []byte
+	for _, r := range want {
+		enc = utf8.AppendRune(enc, r)
+	}
+	verifrt.Assert(strEqSpec(string(rs), string(enc)), "engine:runes-to-string")
 	verifrt.Reach("end")
 }
